@@ -3,6 +3,7 @@ package httpserver
 import (
 	"net/http"
 	"strconv"
+	"sync"
 
 	"github.com/prometheus/client_golang/prometheus"
 
@@ -62,12 +63,50 @@ var (
 	)
 )
 
+type consumerSeriesKey struct{ cluster, consumer string }
+type partitionSeriesKey struct{ topic, partition string }
+
+// partitionSeries remembers, for each cluster and consumer group, the topic partitions for which the last scrape wrote
+// series. The next scrape uses it to remove the series of partitions that are no longer part of the status of the group
+// (a deleted topic, for example), so that the partition series of a group always mirror the status that was last read.
+var (
+	partitionSeriesLock sync.Mutex
+	partitionSeries     = make(map[consumerSeriesKey]map[partitionSeriesKey]struct{})
+)
+
+// pruneConsumerPartitionMetrics deletes the partition series of the group that a previous scrape wrote and this one did
+// not, and remembers the ones this scrape wrote
+func pruneConsumerPartitionMetrics(cluster, consumer string, written map[partitionSeriesKey]struct{}) {
+	partitionSeriesLock.Lock()
+	defer partitionSeriesLock.Unlock()
+
+	key := consumerSeriesKey{cluster: cluster, consumer: consumer}
+	for old := range partitionSeries[key] {
+		if _, ok := written[old]; !ok {
+			labels := map[string]string{
+				"cluster":        cluster,
+				"consumer_group": consumer,
+				"topic":          old.topic,
+				"partition":      old.partition,
+			}
+			consumerPartitionLagGauge.Delete(labels)
+			consumerPartitionCurrentOffset.Delete(labels)
+			partitionStatusGauge.Delete(labels)
+		}
+	}
+	partitionSeries[key] = written
+}
+
 // DeleteConsumerMetrics deletes all metrics that are labeled with a consumer group
 func DeleteConsumerMetrics(cluster, consumer string) {
 	labels := map[string]string{
 		"cluster":        cluster,
 		"consumer_group": consumer,
 	}
+
+	partitionSeriesLock.Lock()
+	delete(partitionSeries, consumerSeriesKey{cluster: cluster, consumer: consumer})
+	partitionSeriesLock.Unlock()
 
 	consumerTotalLagGauge.Delete(labels)
 	consumerStatusGauge.Delete(labels)
@@ -128,23 +167,34 @@ func (hc *Coordinator) handlePrometheusMetrics() http.HandlerFunc {
 				consumerTotalLagGauge.With(labels).Set(float64(consumerStatus.TotalLag))
 				consumerStatusGauge.With(labels).Set(float64(consumerStatus.Status))
 
+				written := make(map[partitionSeriesKey]struct{}, len(consumerStatus.Partitions))
 				for _, partition := range consumerStatus.Partitions {
+					partitionNumber := strconv.FormatInt(int64(partition.Partition), 10)
 					labels := map[string]string{
 						"cluster":        cluster,
 						"consumer_group": consumer,
 						"topic":          partition.Topic,
-						"partition":      strconv.FormatInt(int64(partition.Partition), 10),
+						"partition":      partitionNumber,
 					}
+					written[partitionSeriesKey{topic: partition.Topic, partition: partitionNumber}] = struct{}{}
 
 					consumerPartitionLagGauge.With(labels).Set(float64(partition.CurrentLag))
 
 					// A partition known only through an owner update has a window without any commit: with
-				// intervals = 1 that window still counts as complete, but there is no offset to report
-				if partition.Complete == 1.0 && partition.End != nil {
+					// intervals = 1 that window still counts as complete, but there is no offset to report
+					if partition.Complete == 1.0 && partition.End != nil {
 						consumerPartitionCurrentOffset.With(labels).Set(float64(partition.End.Offset))
 						partitionStatusGauge.With(labels).Set(float64(partition.Status))
+					} else {
+						consumerPartitionCurrentOffset.Delete(labels)
+						partitionStatusGauge.Delete(labels)
 					}
 				}
+
+				// The status may come from the evaluator cache and still list the partitions of a topic that has been
+				// deleted since (whose series were deleted then): whatever an earlier scrape wrote for this group and
+				// this status does not have is removed again
+				pruneConsumerPartitionMetrics(cluster, consumer, written)
 			}
 
 			// Topics
